@@ -153,6 +153,11 @@ structure Base where
   quals : List String
   node : Val
   prelude : String := ""
+  /-- derivations contributed by the specifier itself: `_Atomic(int *) D` means `int * _Atomic D` -/
+  innerDerivs : List Deriv := []
+  /-- may the specifier be used in a type name (cast, sizeof, ...)?  `_Atomic(T)` is only
+  normalised in declarations (type names keep the wrapper: recorded finding) -/
+  abstractOK : Bool := true
   deriving Inhabited
 
 def bases : List Base := [
@@ -162,15 +167,21 @@ def bases : List Base := [
   { toks := ["volatile", "int", "const"], quals := ["volatile", "const"], node := identType ["int"] },
   { toks := ["struct", "S"], quals := [], node := nd .Struct [.str "S", .none] },
   { toks := ["TT"], quals := [], node := identType ["TT"], prelude := "typedef int TT ; " },
-  { toks := ["enum", "E"], quals := [], node := nd .Enum [.str "E", .none] }]
+  { toks := ["enum", "E"], quals := [], node := nd .Enum [.str "E", .none] },
+  -- C11 6.7.2.4: `_Atomic(T)` means the `_Atomic`-qualified `T`
+  { toks := ["_Atomic", "(", "int", ")"], quals := ["_Atomic"], node := identType ["int"], abstractOK := false },
+  { toks := ["_Atomic", "(", "int", "*", ")"], quals := [], node := identType ["int"],
+    innerDerivs := [.ptr ["_Atomic"]], abstractOK := false },
+  { toks := ["_Atomic", "(", "char", "*", "const", "*", ")"], quals := [], node := identType ["char"],
+    innerDerivs := [.ptr ["_Atomic"], .ptr ["const"]], abstractOK := false }]
 
 /-- declared-entity node for `base D` -/
 def declVal (b : Base) (d : Declarator) : Val :=
-  let chain := chainVal (typeDecl d.ident b.quals b.node) (denote d)
+  let chain := chainVal (typeDecl d.ident b.quals b.node) (denote d ++ b.innerDerivs)
   nd .Decl [match d.ident with | some s => .str s | none => .none, strsV b.quals, strsV [], strsV [], strsV [], chain, .none, .none]
 
 def typedefVal (b : Base) (d : Declarator) : Val :=
-  let chain := chainVal (typeDecl d.ident b.quals b.node) (denote d)
+  let chain := chainVal (typeDecl d.ident b.quals b.node) (denote d ++ b.innerDerivs)
   nd .Typedef [match d.ident with | some s => .str s | none => .none, strsV b.quals, strsV ["typedef"], chain]
 
 def typenameVal (b : Base) (d : Declarator) : Val :=
